@@ -353,8 +353,9 @@ func (v *variablesVisitor) traverseFieldDefinitionType(fieldTypeDefinitionNodeKi
 				return
 			}
 
-			// An undefined required input field is valid if it has a default value
-			if v.definition.InputValueDefinitionHasDefaultValue(inputFieldRef) {
+			// An undefined required input field is valid if it has a default value.
+			// An explicit null is not: the default only replaces a missing entry.
+			if jsonValue == nil && v.definition.InputValueDefinitionHasDefaultValue(inputFieldRef) {
 				return
 			}
 			v.renderVariableRequiredNotProvidedError(fieldName, typeRef)
